@@ -72,6 +72,38 @@ func paramRefName(pa *ssa.Parameter) string {
 }
 
 func runC01(p *Prog, r *Report) {
+	if want("C01.26") {
+		// a version edit is applied exactly (shared with C06)
+		ruleStagingAppliesEdit(p, r, "C01.26")
+	}
+	if want("C01.25") {
+		// every record of a batch gets its own increasing sequence number (shared with C05/C11)
+		ruleMemInsertSeq(p, r, "C01.25")
+	}
+	if want("C01.24") {
+		// sorted levels stay sorted and disjoint (shared with C06)
+		ruleLevelsSorted(p, r, "C01.24")
+	}
+	if want("C01.23") {
+		// internal keys decode to what was encoded (shared with C15)
+		ruleKeyCodec(p, r, "C01.23")
+	}
+	if want("C01.22") {
+		// internal key order: user key ascending, sequence descending (shared with C15)
+		ruleICompareSignTable(p, r, "C01.22")
+	}
+	if want("C01.21") {
+		// compaction inputs are expanded to whole user-key ranges (shared with C06)
+		ruleExpandRanges(p, r, "C01.21")
+	}
+	if want("C01.20") {
+		// a compaction deletes exactly its inputs and adds exactly its outputs (shared with C06)
+		ruleCompactionEdit(p, r, "C01.20")
+	}
+	if want("C01.19") {
+		// batch records decode to what was encoded (shared with C04)
+		ruleBatchCodec(p, r, "C01.19")
+	}
 	if want("C01.1") {
 		ruleComparerDiscipline(p, r, "C01.1", cmpPkgs, nil)
 	}
